@@ -301,6 +301,9 @@ func checkCmd(args []string) {
 		}
 		if _, ok := ledger.Unproved[o.Name]; ok && !*update {
 			unprovedNow = append(unprovedNow, o.Name)
+			if *verbose {
+				fmt.Fprintf(os.Stderr, "NOTPROVED %s %s\n", o.Name, o.Result)
+			}
 			continue
 		}
 		// obligations numbered by return statement: an edit that adds or removes a return renumbers them. A name
